@@ -803,6 +803,66 @@ def retry_loop_facts(prog: Program, outer: FuncInfo, w: FuncInfo, func_ret: Froz
     return facts, problems
 
 
+
+def _iter_length(e: ast.expr) -> Optional[str]:
+    """'A' = exactly self.attempts elements whatever attempts is; another string = a different, named count; None = not read."""
+    def is_attempts(x: ast.expr) -> bool:
+        return dotted(x) == 'self.attempts'
+
+    def last(d: Optional[str]) -> str:
+        return (d or '').rsplit('.', 1)[-1]
+    if not isinstance(e, ast.Call):
+        return None
+    fn_ = last(dotted(e.func))
+    a = e.args
+    kw = {k.arg: k.value for k in e.keywords if k.arg}
+    if fn_ == 'range':
+        if len(a) == 1:
+            return 'A' if is_attempts(a[0]) else f'range({norm(a[0])})'
+        if len(a) == 2 and isinstance(a[0], ast.Constant) and isinstance(a[0].value, int):
+            k0 = a[0].value
+            if k0 == 0 and is_attempts(a[1]):
+                return 'A'
+            if isinstance(a[1], ast.BinOp) and isinstance(a[1].op, ast.Add) and is_attempts(a[1].left) and isinstance(a[1].right, ast.Constant) and a[1].right.value == k0:
+                return 'A'
+            return f'range({norm(a[0])}, {norm(a[1])})'
+        return None
+    if fn_ == 'repeat':
+        n_ = a[1] if len(a) > 1 else kw.get('times')
+        if n_ is None:
+            return 'inf'
+        return 'A' if is_attempts(n_) else f'max(0, {norm(n_)})'
+    if fn_ in ('count', 'cycle'):
+        return 'inf'
+    if fn_ == 'islice' and len(a) == 2:
+        inner = _iter_length(a[0])
+        if is_attempts(a[1]) and inner in ('inf', 'A', None):
+            return 'A' if inner in ('inf', 'A') else None
+        return f'islice(…, {norm(a[1])})'
+    if fn_ in ('enumerate', 'iter', 'reversed', 'list', 'tuple') and a:
+        return _iter_length(a[0])
+    if fn_ in ('map', 'starmap') and len(a) >= 2:
+        ls = [_iter_length(x) for x in a[1:]]
+        fin = [l_ for l_ in ls if l_ != 'inf']
+        if any(l_ is None for l_ in ls):
+            return None
+        return fin[0] if fin and all(l_ == fin[0] for l_ in fin) else ('inf' if not fin else None)
+    if fn_ == 'zip' and a:
+        ls = [_iter_length(x) for x in a]
+        if any(l_ is None for l_ in ls):
+            return None
+        fin = [l_ for l_ in ls if l_ != 'inf']
+        return fin[0] if fin and all(l_ == fin[0] for l_ in fin) else ('inf' if not fin else None)
+    if fn_ == 'accumulate' and a:
+        inner = _iter_length(a[0])
+        if inner is None:
+            return None
+        if 'initial' in kw and not (isinstance(kw['initial'], ast.Constant) and kw['initial'].value is None):
+            return f'{inner} + 1' if inner != 'inf' else 'inf'
+        return inner
+    return None
+
+
 def backoff_facts(prog: Program) -> Tuple[Dict[str, Any], List[Problem]]:
     problems: List[Problem] = []
     facts: Dict[str, Any] = {}
@@ -846,6 +906,13 @@ def backoff_facts(prog: Program) -> Tuple[Dict[str, Any], List[Problem]]:
             it = norm(heads[0].ast.iter)
             bound_ok = 'self.attempts' in it and any(k in it for k in ('range(', 'repeat(', 'islice('))
             rec['bound'] = it
+            # how many elements the iterable has, where that can be read off: exactly `attempts` for every attempts >= 0 ('A'), or
+            # something else (attempts - 1 clamped at 0, + 1 for accumulate(initial=…), …)
+            ln = _iter_length(heads[0].ast.iter)
+            rec['delays'] = ln or 'not read'
+            if ln is not None and ln != 'A':
+                bound_ok = False
+                rec['bound'] = f'{it}  ({ln} elements)'
         # exactly one delay per iteration, on every path through the loop body (`if cap: yield min(..) else: yield v` is one per path)
         ok = bound_ok and bool(yields)
         if ok:
